@@ -19,6 +19,8 @@ import tempfile
 import numpy as np
 
 from common import all_pre_build as pre_build  # noqa: E402,F401  (regenerates Generated/{Wiring,Setup,...}.lean from the tested tree)
+import orchx  # noqa: E402  (extended alphabet: re-add, set_run_params, mpe_from_plot - Model/OrchX.lean)
+from common import wiring_pre_build as pre_build  # noqa: E402,F401  (regenerates Generated/Wiring.lean from the tested tree)
 
 LEAN_MODULES = ["PyomaVerif.Props.C15", "PyomaVerif.Mutants.C15", "PyomaVerif.Props.WiringGuard", "PyomaVerif.Props.WiringSetup"]
 THEOREMS = [
@@ -62,7 +64,8 @@ THEOREMS = [
     "PV.C15.Mutants.unordered_poser_fails",
     "PV.C15.Mutants.lt_poser_fails",
     "PV.C15.Mutants.noFn_poser_fails",
-]
+] + orchx.THEOREMS
+LEAN_MODULES += orchx.LEAN_MODULES
 RULE = (
     "orchestration: every call sequence of length 3 for 3 ordered class pairs (quick) / for all 30 ordered pairs of the 6 "
     "classes + length 4 for 3 pairs (thorough) over an 11-letter alphabet {add A, add A without parameters, add B, run A, run B, run unknown, run_all, "
@@ -76,17 +79,17 @@ RULE = (
     "(unrun/run/mpe per algorithm) x (names 0..3) for 0..2 setups exhaustively, 3 setups exhaustive over type lists + "
     "sampled states (thorough: 3 setups exhaustive over 2 classes, 4 setups sampled). distinct = distinct sequences / "
     "PoSER configurations"
-)
+) + orchx.RULE
 EXTRA_TRUSTED = [
     "pydantic models, pickle, and bitwise determinism of LAPACK/FFT on identical input in one process (checked at runtime by hash, not proved)",
     "sha1 over dtype/shape/bytes of every array field as equality of results",
 ]
 ASSUMPTIONS = [
-    "algorithms are fresh instances when added (re-adding an instance that already holds a result is outside the model)",
+    "`add` letters hand over fresh instances; re-adding the object that is in the dict is the letter `readd` (orchx.py)",
     "run/mpe/preprocessing are total on the inputs used (a numerical exception that a stand-alone call reproduces is counted and skipped)",
     "dict keys are unique (Python dict) - run_all is modelled as a loop over the entries",
     "the model mirrors the tree AFTER proposed_fixes/fix_F24.diff (EFDD.mpe guarded); Mutants/C15.lean has the pinned variant",
-]
+] + orchx.ASSUMPTIONS
 
 FS0 = 50.0
 CLASSES5 = ["FDD", "EFDD", "SSIcov", "SSIdat", "pLSCF"]
@@ -786,6 +789,7 @@ def correspondence(ctx):
         ctx.notes.append(f"{n}/{len(bad)} recorded orchestration disagreements vanish against the pre-fix model variant "
                          "(EFDD.mpe unguarded, F24)")
     corr_projection(ctx, world, sm[: ctx.n(120, 1500)] + ctx.rng.sample(ex, min(len(ex), ctx.n(150, 1500))))
+    orchx.correspondence(ctx, world)
     corr_poser(ctx)
     best = max(sm, key=lambda q: sum(1 for a in world.trace(q)[-1]["algs"] if a["r"] is not None))
     ctx.sample({"data_seed": world.seed, "example_sequence": seq_sig(best),
@@ -1024,6 +1028,7 @@ def oracle(ctx, scale):
         fn(world, seq, report, ctx.count)
         ctx.oracle_cases += 1
 
+    orchx.oracle(ctx, world)
     ctx.oracle_cases += 1
     bad = arrays_intact(world)
     if bad:
@@ -1075,6 +1080,8 @@ def replay(rec):
         impl = PoserWorld(inp["data_seed"]).construct(cfg)
         print("configuration:", cfg, "->", impl, "; statement expects", poser_expected(cfg))
         return 0
+    if inp.get("kind") == "sequence_x":
+        return orchx.replay(inp)
     world = World(inp["data_seed"])
     if inp.get("kind") == "plot-gate":
         plot_gate_check(World(inp["data_seed"]), inp["cls"],
